@@ -270,6 +270,10 @@ func Run(run *ev.Run, prop string, jobs []Job) {
 	}
 	var sigMu sync.Mutex
 	sigs := map[*Job]map[dkgsys.Deviation]string{}
+	// an answer slot only exists once somebody complained: its variants are compared IN THE CONTEXT of the
+	// deviation that provokes the complaint (the pair {share to r omitted, answer-to-r variant}, explored
+	// anyway when D >= 2) - alone they are all indistinguishable from "no deviation"
+	pairSigs := map[*Job]map[[2]dkgsys.Deviation]string{}
 	ev.Par(len(units), func(i int) {
 		u := units[i]
 		sg := explore(i, u)
@@ -280,6 +284,20 @@ func Run(run *ev.Run, prop string, jobs []Job) {
 			}
 			sigs[u.job][u.sc[0]] = sg
 			sigMu.Unlock()
+		}
+		if u.job.TripleReps && len(u.sc) == 2 && sg != "" {
+			a, b := u.sc[0], u.sc[1]
+			if strings.HasPrefix(b.Slot, "share:") {
+				a, b = b, a
+			}
+			if strings.HasPrefix(a.Slot, "share:") && a.Var == "omit" && strings.HasPrefix(b.Slot, "ans:") && a.Z == b.Z && strings.TrimPrefix(a.Slot, "share:") == strings.TrimPrefix(b.Slot, "ans:") {
+				sigMu.Lock()
+				if pairSigs[u.job] == nil {
+					pairSigs[u.job] = map[[2]dkgsys.Deviation]string{}
+				}
+				pairSigs[u.job][[2]dkgsys.Deviation{a, b}] = sg
+				sigMu.Unlock()
+			}
 		}
 	})
 	// second stage: triples over class representatives
@@ -297,7 +315,15 @@ func Run(run *ev.Run, prop string, jobs []Job) {
 			if !ok {
 				continue
 			}
-			k := fmt.Sprintf("%d/%s/%s", d.Z, d.Slot, sg)
+			if strings.HasPrefix(d.Slot, "ans:") {
+				ctx := dkgsys.Deviation{Z: d.Z, Slot: "share:" + strings.TrimPrefix(d.Slot, "ans:"), Var: "omit"}
+				if psg, ok := pairSigs[j][[2]dkgsys.Deviation{ctx, d}]; ok {
+					sg += "|after-a-complaint:" + psg
+				}
+			}
+			// timing is never merged away: a late variant meets other states of the receivers than its
+			// on-time twin once it is combined with further deviations (phase-dependent counters)
+			k := fmt.Sprintf("%d/%s/late=%v/last=%v/%s", d.Z, d.Slot, strings.Contains(d.Var, "late"), strings.HasSuffix(d.Var, "last"), sg)
 			if !seenClass[k] {
 				seenClass[k] = true
 				reps = append(reps, d)
